@@ -138,10 +138,19 @@ impl<'tcx, 'a> MirCx<'tcx, 'a> {
             Operand::Move(p) => J::obj().put("k", J::s("move")).put("place", self.place(p)),
             Operand::Constant(c) => {
                 let ty = c.const_.ty();
+                // a named constant (`const QUOTE: &str = "\"";`) is printed by its value, like a literal
+                let mut text = with_no_trimmed_paths!(format!("{}", c.const_));
+                if let mir::Const::Unevaluated(uv, _) = c.const_ {
+                    if uv.promoted.is_none() && !matches!(ty.kind(), ty::FnDef(..)) {
+                        if let Ok(val) = c.const_.eval(self.tcx, self.tenv, c.span) {
+                            text = with_no_trimmed_paths!(format!("{}", mir::Const::Val(val, ty)));
+                        }
+                    }
+                }
                 let mut j = J::obj()
                     .put("k", J::s("const"))
                     .put("ty", J::s(ty_s(ty)))
-                    .put("s", J::s(with_no_trimmed_paths!(format!("{}", c.const_))));
+                    .put("s", J::s(text));
                 if ty.is_integral() || ty.is_bool() || ty.is_char() || ty.is_floating_point() {
                     if let Some(si) = c.const_.try_eval_scalar_int(self.tcx, self.tenv) {
                         let size = si.size();
